@@ -160,47 +160,43 @@ fn nopanic_dkg_round2_secret_package() {
     let _ = de_any!(dkg::round2::SecretPackage<Toy251>, 6);
 }
 
-// BTreeMap-carrying types: the map keys come from the input, i.e. they are SYMBOLIC — the case the design
-// (§2.5) rules out for Kani beyond toy sizes.  With a symbolic map-length byte these harnesses did not finish
-// in 25 min even for <= 1 entry; the element COUNT is therefore concrete (0 or 1: with one entry no key
-// comparison ever happens), every other byte and the total length are symbolic.  unwind 5 + stubbed short_id
-// as in codec.rs; SigningPackage additionally bounds the message-length byte (< 4).
-// @harness name=nopanic_public_key_package_n1 props=C14 kind=bounded bound="N = 12, map length byte == 1 (valid encodings: 9..12 bytes); all other bytes, all lengths <= 12" tier=thorough backs="no panic in PublicKeyPackage::deserialize (custom visitor) on arbitrary bytes with exactly one announced map entry" expect=pass
+// BTreeMap-carrying types (PublicKeyPackage, SigningPackage): fully symbolic input means SYMBOLIC MAP KEYS, the
+// case the design (§2.5) rules out for Kani.  Tried and dropped (see README): symbolic map-length byte <= 1:
+// no result in 25 min; concrete map length 0 / 1 with everything else symbolic: CBMC out of memory after
+// 12-18 min.  What does finish is the weaker statement below: a WELL-FORMED FRAME (header, element count,
+// map key and length prefixes concrete) with ARBITRARY value bytes (valid or not), ARBITRARILY TRUNCATED.
+const HDR: [u8; 5] = [
+    0,
+    crate::codec::TOY251_SHORT_ID[0],
+    crate::codec::TOY251_SHORT_ID[1],
+    crate::codec::TOY251_SHORT_ID[2],
+    crate::codec::TOY251_SHORT_ID[3],
+];
+
+// @harness name=nopanic_public_key_package_framed props=C14 kind=bounded bound="frame hdr|1|id=1|vs|vk|tag|t with arbitrary bytes vs, vk, tag, t (valid or not), every prefix length 0..=11" tier=thorough backs="no panic in PublicKeyPackage::deserialize on a well-formed one-entry frame with arbitrary value bytes, arbitrarily truncated" expect=pass
 #[kani::proof]
 #[kani::unwind(5)]
 #[kani::stub(frost_core::serialization::short_id, stub_short_id)]
-fn nopanic_public_key_package_n1() {
-    let mut buf: [u8; 12] = kani::any();
-    buf[5] = 1;
+fn nopanic_public_key_package_framed() {
+    let v: [u8; 4] = kani::any();
+    let buf = [HDR[0], HDR[1], HDR[2], HDR[3], HDR[4], 1, 1, v[0], v[1], v[2], v[3]];
     let len: usize = kani::any();
-    kani::assume(len <= 12);
+    kani::assume(len <= 11);
     let r = PublicKeyPackage::<Toy251>::deserialize(&buf[..len]);
     core::mem::forget(r);
 }
 
-// @harness name=nopanic_public_key_package_n0 props=C14 kind=bounded bound="N = 10, map length byte == 0 (valid encodings: 7..10 bytes)" tier=thorough backs="no panic in PublicKeyPackage::deserialize on arbitrary bytes announcing an empty map" expect=pass
+// @harness name=nopanic_signing_package_framed props=C14 kind=bounded bound="frame hdr|1|id=1|hdr|D|E|1|m with arbitrary bytes D, E, m (valid or not), every prefix length 0..=16" tier=thorough backs="no panic in SigningPackage::deserialize on a well-formed one-entry frame with arbitrary value bytes, arbitrarily truncated" expect=pass
 #[kani::proof]
 #[kani::unwind(5)]
 #[kani::stub(frost_core::serialization::short_id, stub_short_id)]
-fn nopanic_public_key_package_n0() {
-    let mut buf: [u8; 10] = kani::any();
-    buf[5] = 0;
+fn nopanic_signing_package_framed() {
+    let v: [u8; 3] = kani::any();
+    let buf = [
+        HDR[0], HDR[1], HDR[2], HDR[3], HDR[4], 1, 1, HDR[0], HDR[1], HDR[2], HDR[3], HDR[4], v[0], v[1], 1, v[2],
+    ];
     let len: usize = kani::any();
-    kani::assume(len <= 10);
-    let r = PublicKeyPackage::<Toy251>::deserialize(&buf[..len]);
-    core::mem::forget(r);
-}
-
-// @harness name=nopanic_signing_package_n1 props=C14 kind=bounded bound="N = 17, map length byte == 1, message-length byte < 4 (a valid encoding with a 1-byte message has 16 bytes)" tier=thorough backs="no panic in SigningPackage::deserialize on arbitrary bytes with exactly one announced map entry" expect=pass
-#[kani::proof]
-#[kani::unwind(5)]
-#[kani::stub(frost_core::serialization::short_id, stub_short_id)]
-fn nopanic_signing_package_n1() {
-    let mut buf: [u8; 17] = kani::any();
-    buf[5] = 1;
-    kani::assume(buf[14] < 4);
-    let len: usize = kani::any();
-    kani::assume(len <= 17);
+    kani::assume(len <= 16);
     let r = SigningPackage::<Toy251>::deserialize(&buf[..len]);
     core::mem::forget(r);
 }
